@@ -17,7 +17,7 @@ package server
 import (
 	"fmt"
 	"math/rand"
-	"strings"
+	"net"
 	"time"
 
 	"rcproxy/core"
@@ -28,9 +28,13 @@ import (
 
 // OnCOpened fires when a new client connection has been opened.
 func (ls *listenServer) OnCOpened(c core.CConn) (out []byte, action core.Action) {
-	access := strings.Split(c.RemoteAddr(), ":")
-	if !authip.IpMap.Validate(access[0]) {
-		logging.Warnf("[%dc] unauthorized access from %s", c.Fd(), access[0])
+	// the host part of "host:port" / "[v6-host]:port"; splitting at the first ':' cut IPv6 addresses short
+	host, _, err := net.SplitHostPort(c.RemoteAddr())
+	if err != nil {
+		host = c.RemoteAddr()
+	}
+	if !authip.IpMap.Validate(host) {
+		logging.Warnf("[%dc] unauthorized access from %s", c.Fd(), host)
 		return nil, core.Close
 	}
 
